@@ -24,6 +24,7 @@ LOADER_LF = {
     "inc": "I[{{ v }}]\n  i2\n",
     "lib": "{% macro f(a) %}<{{ a }}>{% endmacro %}{% set k = 7 %}",
     "base": "B:{% block b %}bb{% endblock %}:{% block c %}cc{% endblock %}:E\n",
+    "inch": "<p>{{ h }}\n  {{ mk }}\n",
 }
 
 FLAGS: typing.Dict[str, typing.Dict[str, bool]] = {
@@ -42,12 +43,44 @@ def with_le(text: str, le: str) -> str:
     return text.replace("\r\n", "\n").replace("\n", "\r\n")
 
 
+class MarkupSpec(typing.NamedTuple):
+    """Placeholder in a context: replaced at render time by the Markup class of the rendering engine."""
+
+    text: str
+
+
 def contexts() -> typing.List[typing.Dict[str, typing.Any]]:
-    """Three contexts; the name `u` is undefined in the first one."""
+    """Three contexts; the name `u` is undefined in the first one. `h` is a plain string with HTML-special characters,
+    `mk` a Markup object (of the engine's own Markup class) whose text contains markup and an entity."""
     return [
-        {"v": "val", "s": "str", "n": 3, "l": [1, 2, 3], "d": {"k": "dv"}, "b": True, "m": "l1\nl2\n\nl4", "e": []},
-        {"v": "", "s": "x y", "n": 0, "l": [], "d": {}, "b": False, "m": "one", "u": None, "e": []},
         {
+            "v": "val",
+            "s": "str",
+            "n": 3,
+            "l": [1, 2, 3],
+            "d": {"k": "dv"},
+            "b": True,
+            "m": "l1\nl2\n\nl4",
+            "e": [],
+            "h": "<a href='x'>&\"q\"</a>\n\n <b>",
+            "mk": MarkupSpec("<i>&amp;</i>\n\n <u a=\"1\">"),
+        },
+        {
+            "v": "",
+            "s": "x y",
+            "n": 0,
+            "l": [],
+            "d": {},
+            "b": False,
+            "m": "one",
+            "u": None,
+            "e": [],
+            "h": "plain",
+            "mk": MarkupSpec(""),
+        },
+        {
+            "h": "a&b\r\n<c>\r\n",
+            "mk": MarkupSpec("&lt;\r\n'x' > y\n"),
             "v": "a\r\nb",
             "s": "<&>",
             "n": -2,
@@ -104,14 +137,32 @@ def _pristine_lexer(env: typing.Any) -> typing.Any:
     return lx
 
 
-def get_env(engine: str, flags: str, le: str = "lf", extensions: typing.Sequence[typing.Any] = ()) -> typing.Any:
-    key = (engine, flags, le, tuple(str(e) for e in extensions))
+def engine_markup(engine: str) -> typing.Any:
+    """Each engine's own Markup class."""
+    if engine == "stock":
+        import markupsafe
+
+        return markupsafe.Markup
+    import nunavut.jinja.markupsafe as bms
+
+    return bms.Markup
+
+
+def get_env(
+    engine: str,
+    flags: str,
+    le: str = "lf",
+    extensions: typing.Sequence[typing.Any] = (),
+    autoescape: bool = False,
+) -> typing.Any:
+    key = (engine, flags, le, tuple(str(e) for e in extensions), autoescape)
     env = _envs.get(key)
     if env is not None:
         return env
     mod = engine_module(engine)
     loader = mod.DictLoader({k: with_le(v, le) for k, v in LOADER_LF.items()})
-    kw = dict(FLAGS[flags])
+    kw: typing.Dict[str, typing.Any] = dict(FLAGS[flags])
+    kw["autoescape"] = autoescape
     if extensions:
         kw["extensions"] = list(extensions)  # type: ignore
     if engine == "pristine":
@@ -128,6 +179,7 @@ def get_env(engine: str, flags: str, le: str = "lf", extensions: typing.Sequence
         env = PristineEnvironment(loader=loader, **kw)
     else:
         env = mod.Environment(loader=loader, **kw)
+    env.c19_markup = engine_markup(engine)
     _envs[key] = env
     return env
 
@@ -164,8 +216,11 @@ def render_env(env: typing.Any, src: str, ctxs: typing.Sequence[typing.Mapping[s
     except Exception as e:  # pylint: disable=broad-except
         return [("err", family(e))] * len(ctxs)
     out: typing.List[Outcome] = []
+    mk = getattr(env, "c19_markup", None)
     for c in ctxs:
         COUNT["renders"] += 1
+        if mk is not None and isinstance(c.get("mk"), MarkupSpec):
+            c = dict(c, mk=mk(c["mk"].text))
         try:
             out.append(("ok", t.render(**c)))
         except Exception as e:  # pylint: disable=broad-except
@@ -174,6 +229,11 @@ def render_env(env: typing.Any, src: str, ctxs: typing.Sequence[typing.Mapping[s
 
 
 def render(
-    engine: str, flags: str, le: str, src: str, ctxs: typing.Sequence[typing.Mapping[str, typing.Any]]
+    engine: str,
+    flags: str,
+    le: str,
+    src: str,
+    ctxs: typing.Sequence[typing.Mapping[str, typing.Any]],
+    autoescape: bool = False,
 ) -> typing.List[Outcome]:
-    return render_env(get_env(engine, flags, le), with_le(src, le), ctxs)
+    return render_env(get_env(engine, flags, le, (), autoescape), with_le(src, le), ctxs)
